@@ -391,6 +391,43 @@ func runAppendOnly(c *core.Ctx) []core.Obligation {
 				}
 				grow, ok := growthAmount(sl.High, sl.X)
 				if !ok {
+					// a bound above the length of an older version of the destination (i+5 with
+					// i := len(b) taken before this call appended): the slice is in range only if
+					// the current version is known to be that long — a test made after the slice
+					// expression comes too late, and the capacity may stop short of the bound
+					st := flattenSum(sl.High)
+					older := false
+					for t := range st.terms {
+						if la, isLen := lenArg(t); isLen && a.v[la] && la != sl.X {
+							older = true
+						}
+					}
+					if !older || st.k <= 0 || len(st.terms) != 1 {
+						continue
+					}
+					proven := false
+					for _, e := range dominatingEdges(blk) {
+						bo, isBO := e.ifi.Cond.(*ssa.BinOp)
+						if !isBO {
+							continue
+						}
+						la, isLen := lenArg(bo.X)
+						if !isLen || la != sl.X {
+							continue
+						}
+						if flattenSum(bo.Y).String() != st.String() {
+							continue
+						}
+						if (bo.Op == token.GEQ && e.succ == 0) || (bo.Op == token.EQL && e.succ == 0) || (bo.Op == token.LSS && e.succ == 1) {
+							proven = true
+						}
+					}
+					any = true
+					if proven {
+						b.ok(mk("slice-above-snapshot"), c.InstrPos(sl), "the destination is known to be at least that long")
+					} else {
+						b.addP([]string{"C15", "C06", "C01"}, core.Violation, mk("slice-above-snapshot"), c.InstrPos(sl), fmt.Sprintf("%s slices the destination up to %s — a bound above a length taken before this call appended — without a dominating test that the destination is that long: when fewer bytes were appended the expression reaches into the spare capacity, and panics (slice bounds out of range) when the capacity stops short of it", name, st.String()))
+					}
 					continue
 				}
 				any = true
